@@ -484,6 +484,8 @@ func (p *provider) matchingVersionsWithPrereleases(ctx context.Context, req reso
 	}
 
 	debugf(p.rc, "filtering %v by %v\n", vs, constraint)
+	// The slice belongs to the client; it is filtered and sorted in place below.
+	vs = slices.Clone(vs)
 
 	mvs, err = filterSlice(vs, func(v resolve.Version) (bool, error) {
 		if v.VersionType != resolve.Concrete {
@@ -591,6 +593,8 @@ func (p *provider) getDependencies(ctx context.Context, v resolve.VersionKey, ex
 	if err != nil {
 		return nil, err
 	}
+	// The slice belongs to the client and filterSlice reorders in place.
+	deps = slices.Clone(deps)
 	// Filter according to any environment markers. In pip this happens
 	// earlier (and several layers further away from the resolver), see
 	// https://github.com/pypa/pip/blob/21.1.3/src/pip/_vendor/pkg_resources/__init__.py#L3026
